@@ -44,7 +44,8 @@ type c15SSHClient struct {
 	// Hold: a slow reader - the client reads nothing of the output until it has written all of its input, and the
 	// output is larger than the ssh channel window (2 MiB), so the relay towards the client stalls on flow control
 	// while the relay towards the backend is busy
-	Hold bool `json:"hold,omitempty"`
+	Hold   bool  `json:"hold,omitempty"`
+	HoldMs int64 `json:"hold_ms,omitempty"` // how long the slow reader waits (default 3 s)
 	// QuickExit: the backend's command does not read its input - output, exit status and channel close follow each
 	// other at once (the client's input may then be cut off legitimately; the output may not)
 	QuickExit bool `json:"quick_exit,omitempty"`
@@ -107,6 +108,12 @@ func genC15SSH(r *Rng, p *c15Params, sc *Scenario) {
 		}
 		if !cl.Hold && r.Chance(0.3) {
 			cl.QuickExit = true
+		}
+		if cl.Hold && r.Chance(0.5) {
+			// ... and the command has long exited when the slow reader finally reads (it never read its input): the
+			// tail of its output is parked inside the proxy for several seconds
+			cl.QuickExit = true
+			cl.HoldMs = int64(r.Range(6000, 14000))
 		}
 		cl.Stdin, cl.Output = hex.EncodeToString(in), hex.EncodeToString(out)
 		p.SSH = append(p.SSH, cl)
@@ -267,7 +274,7 @@ func c15SSHBackend(l net.Listener, clients []c15SSHClient, lg *c15SSHBackendLog)
 					if !cl.QuickExit {
 						time.Sleep(2 * time.Second)
 					}
-					if cl.Hold {
+					if cl.Hold && !cl.QuickExit {
 						<-stdinEOF // ... to its end (the slow client writes late)
 					}
 					ch.SendRequest("exit-status", false, ssh.Marshal(struct{ S uint32 }{uint32(cl.Exit)}))
@@ -399,7 +406,11 @@ func runC15SSH(t *testing.T, sc *Scenario, p *c15Params) Result {
 				in, _ := hex.DecodeString(cl.Stdin)
 				if cl.Hold {
 					// let the output pile up against the channel window first, then write, then read
-					time.Sleep(3 * time.Second)
+					wait := 3 * time.Second
+					if cl.HoldMs > 0 {
+						wait = time.Duration(cl.HoldMs) * time.Millisecond
+					}
+					time.Sleep(wait)
 					ch.Write(in)
 					ch.CloseWrite()
 					out.Output, _ = io.ReadAll(ch)
@@ -560,6 +571,9 @@ func runC15SSH(t *testing.T, sc *Scenario, p *c15Params) Result {
 		res.probe("ssh-sessions-verified", 1)
 		if cl.Hold {
 			res.probe("ssh-slow-reader-sessions", 1)
+			if cl.QuickExit {
+				res.probe("ssh-slow-reader-after-exit", 1)
+			}
 		}
 	}
 	return res
